@@ -339,8 +339,87 @@ for _nm in _ONEBYTE:
     c.ens("P1-reads-only-the-current-byte", lambda pair, result: And(eq(result[0], result[1]), lex_eq(pair[0], pair[1])))
 
 
+def _sample_regex(pat, rng):
+    """a byte string matched by the (bytes) pattern, drawn with a small generator over CPython's own parse of it; None when a construct is not handled"""
+    try:
+        import re._parser as sp
+        import re._constants as sc
+    except ImportError:                      # Python < 3.11
+        import sre_parse as sp
+        import sre_constants as sc
+
+    def gen(items):
+        out = b""
+        for op, av in items:
+            op = str(op)
+            if op == "LITERAL":
+                out += bytes((av,))
+            elif op == "NOT_LITERAL":
+                out += bytes((rng.choice([c for c in b"aZ0 (/" if c != av]),))
+            elif op == "ANY":
+                out += bytes((rng.choice(b"a0 /"),))
+            elif op == "IN":
+                neg = av and str(av[0][0]) == "NEGATE"
+                members = []
+                for o2, a2 in av:
+                    o2 = str(o2)
+                    if o2 == "LITERAL":
+                        members.append(a2)
+                    elif o2 == "RANGE":
+                        members += [a2[0], a2[1], (a2[0] + a2[1]) // 2]
+                    elif o2 == "CATEGORY":
+                        cat = str(a2)
+                        members += list({"CATEGORY_DIGIT": b"059", "CATEGORY_SPACE": b" \n\r\t", "CATEGORY_WORD": b"aZ_0",
+                                         "CATEGORY_NOT_SPACE": b"a0/(", "CATEGORY_NOT_DIGIT": b"a /", "CATEGORY_NOT_WORD": b" /("}.get(cat, b"a"))
+                if neg:
+                    members = [c for c in b"aZ09 /()<>[]{}%#\\.+-" if c not in members] or [ord("a")]
+                out += bytes((rng.choice(members),))
+            elif op in ("MAX_REPEAT", "MIN_REPEAT"):
+                lo, hi, sub = av
+                for _ in range(rng.randint(lo, min(max(lo, 1) + 1, hi if isinstance(hi, int) and hi < 100 else lo + 2))):
+                    out += gen(sub)
+            elif op == "SUBPATTERN":
+                out += gen(av[-1])
+            elif op == "BRANCH":
+                out += gen(rng.choice(av[1]))
+            elif op == "AT":
+                pass
+            elif op == "CATEGORY":
+                out += bytes((rng.choice({"CATEGORY_DIGIT": b"059", "CATEGORY_SPACE": b" \n\r"}.get(str(av), b"a")),))
+            else:
+                raise ValueError(op)
+        return out
+    try:
+        return gen(sp.parse(pat))
+    except Exception:  # noqa: BLE001
+        return None
+
+
+def source_derived_fragments(rng):
+    """regular-expression literals of pdfminer/psparser.py in the working tree -> sampled matches, embedded next to token starts"""
+    import ast as _ast
+    import os as _os
+    from pyvc.extract import REPO as _REPO
+    tree = _ast.parse(open(_os.path.join(_REPO, "pdfminer", "psparser.py")).read())
+    pats = []
+    for n in _ast.walk(tree):
+        if isinstance(n, _ast.Call) and isinstance(n.func, _ast.Attribute) and n.func.attr in ("compile", "match", "search", "sub", "fullmatch") \
+                and isinstance(n.func.value, _ast.Name) and n.func.value.id == "re" and n.args and isinstance(n.args[0], _ast.Constant) and isinstance(n.args[0].value, bytes):
+            pats.append(n.args[0].value)
+    out = []
+    for pat in sorted(set(pats)):
+        for _ in range(4):
+            smp = _sample_regex(pat, rng)
+            if not smp:
+                continue
+            for pre in (b"", b"1", b"12.5", b"-.5", b"/a", b"(a", b"<4", b"a"):
+                for post in (b"", b" ", b"1 ", b")", b">"):
+                    out.append(pre + smp + post)
+    return out
+
+
 @bounded("all-strings-over-lexical-alphabet-all-buffer-sizes", props=["C14"],
-         bound="quick: every byte string of length <= 4 over a 17-letter alphabet with one representative per lexical class (83k strings at BUFSIZ 4096, a seeded 6% of them also at BUFSIZ 1,2,3,5) plus 1500 random strings of length <= 40; thorough: length <= 5 and all of BUFSIZ 1..7")
+         bound="quick: every byte string of length <= 4 over a 17-letter alphabet with one representative per lexical class (83k strings at BUFSIZ 4096, a seeded 6% of them also at BUFSIZ 1,2,3,5) plus samples of every regular-expression literal of psparser.py next to token starts at BUFSIZ 1,2,3,5, plus 1500 random strings of length <= 40; thorough: length <= 5 and all of BUFSIZ 1..7")
 def _(tier, seed):
     import io, itertools, random
     rng = random.Random(seed + 14)
@@ -396,10 +475,20 @@ def _(tier, seed):
                     raise StopIteration
         # two-byte constructs that a buffer cut can split: raw CR LF inside a string, escapes, hex pairs, name escapes, >> and <<
         for frag in (b"(\r\n)", b"(a\r\nb)", b"(\r\r\n\n)", b"(a\\\r\nb)", b"(\\053)", b"(\\5)", b"<41 4>", b"<4\n1>", b"/A#41#4", b"/#412", b"<<>>", b"<< >>", b"[<<>>]", b"%c\r1", b"%c\r\n1",
-                     b"1.5e", b"-.5", b"+", b"-", b"(()\\))", b"/a/b", b"true[false]"):
+                     b"1.5e", b"-.5", b"+", b"-", b"(()\\))", b"/a/b", b"true[false]",
+                     # a number followed directly by regular characters that other syntaxes read as part of it (exponents, second sign or point, radix)
+                     b"12.5e3", b"1.0E-3", b".5e+2", b"1e5", b"1.5e-", b"1.5E+(", b"1.5.5", b"1-2", b"+1+2", b"16#FF", b"1.5e3e4", b"0x1F"):
             distinct += 1
             check(frag, True)
             check(b" " + frag + b" ", True)
+            if len(failures) >= 3:
+                raise StopIteration
+        # syntax the scanner's own source mentions: every regular expression literal in psparser.py (read from the working tree) is sampled and the samples are
+        # put behind / in front of the starts of a number, a name, a string and a hex string, at every buffer size - so a pattern that is added or widened
+        # (an exponent, a radix, a new escape) is exercised across buffer cuts even when the contracts on its function can no longer be decided
+        for frag in source_derived_fragments(rng):
+            distinct += 1
+            check(frag, True)
             if len(failures) >= 3:
                 raise StopIteration
         for _ in range(1500 if tier == "quick" else 30000):
